@@ -762,7 +762,13 @@ func (ex *Exec) callExternal(c *ast.CallExpr, o *types.Func, args []Term, argTyp
 		return []Term{ufun("timeFormat", SString, args[0], args[1])}
 	case "time.Now":
 		ex.note("nondeterminism: time.Now at " + ex.P.pos(c))
-		return ex.freshResults(sig.Results(), "now")
+		rs := ex.freshResults(sig.Results(), "now")
+		// A-TIME: the clock is monotone; its readings are numbered by the ghost counter evClock
+		tk := ex.U.DeclareFun("timeTick", []*Sort{rs[0].Sort}, SInt)
+		g := ex.st.ghost
+		ex.fact(Eq(Term{app(tk.Name, rs[0]), SInt}, g["evClock"]))
+		ex.st.ghost["evClock"] = ex.def("evClock", Term{"(+ " + g["evClock"].S + " 1)", SInt})
+		return rs
 	case "regexp.Regexp.MatchString":
 		return []Term{ufun("reMatch", SBool, args[0], args[1])}
 	case "regexp.Regexp.ReplaceAllString":
